@@ -46,6 +46,18 @@ CLAIMS.update({
    note="necessary condition only: precondition satisfiable on a reachable state", ref="4/C12"),
 })
 
+CLAIMS.update({
+ "C15": dict(cat="other", tech="dominance of the rate gate on interpreted mutator paths + finite IEEE ordering-class evaluation of the gate + loop-shape rule",
+   text="Every path of every Mutator impl method that applies a mutation or writes output first compares a draw with the rate; that comparison is evaluated over the value classes the draw can take (from interpreting the EntropySource method in both entropy modes, incl. the exhausted-input fallback) for rate 0.0 (must stay closed) and 1.0 (must open); the six value-mutation loops forward self.mutation_rate and the current value, stop at the first Some and return it.",
+   note="trusted: rand's f64 draw lies in [0,1); arbitrary() yields any value or Err", ref="4/C15"),
+ "C16": dict(cat="other", tech="term-shape / interval / charset clauses on the results of every firing mutator path",
+   text="Per mutator: XOR with a single bit inside the operand width; boundary tables subset of the documented constants; wrapping/saturating +-1; memo index +-1 (safe) or < 1000 (unsafe); one replaced item in the printable range with unchanged length; prefix / +1..9 items / doubled; type confusion replaces exactly the value-pushing opcodes by one well-formed opcode of another kind and only in unsafe mode; no reachable panic site in any mutator.",
+   note="chars().take(n) prefix semantics trusted; algebraically equivalent rewrites of a term are reported (stated in DESIGN)", ref="4/C16"),
+ "C18": dict(cat="proof", tech="interpretation of source.rs against five library contracts + interval/relational inclusion",
+   text="For every EntropySource method and both entropy sources, every outcome of the library calls (incl. Err on exhausted input): index < n (0 for n=0), range draw in [a,b) (a when a>=b), printable ASCII characters, byte strings of the requested length, no reachable panic (empty-range and a>b calls are guarded), no Result escapes, fixed fallback on exhaustion.",
+   note="trusted base = the five rand/arbitrary contracts listed in evidence", ref="4/C18"),
+})
+
 NA_DEFAULT = "check not built yet (build in progress; see DESIGN.md section 6 build order)"
 NA = {}
 
